@@ -59,6 +59,12 @@ func optionReads(c *Ctx) (map[string][]string, []*ssa.Function) {
 		return nil, nil
 	}
 	reach := reachClosure(c, []*ssa.Function{su})
+	return optionReadsIn(c, reach), reach
+}
+
+// optionReadsIn: the fields of database.SearchOptions read in the given
+// functions, with the positions of the reads.
+func optionReadsIn(c *Ctx, reach []*ssa.Function) map[string][]string {
 	R := map[string][]string{}
 	for _, fn := range reach {
 		ssau.ForEachInstr(fn, false, func(in ssa.Instruction) {
@@ -79,7 +85,7 @@ func optionReads(c *Ctx) (map[string][]string, []*ssa.Function) {
 			}
 		})
 	}
-	return R, reach
+	return R
 }
 
 func c05Key(c *Ctx, sx *symx.Ctx) {
@@ -112,84 +118,9 @@ func c05Key(c *Ctx, sx *symx.Ctx) {
 	r.Analysed["functions_reachable_from_SearchUniversal"] = len(reach)
 	r.Floor("O-1", "option fields read on the search path", len(names), 7)
 
-	// cache.SearchOptions struct
-	cpk := c.P.Pkg("internal/cache")
-	if !r.Anchor("O-1", "cache.SearchOptions", cpk != nil && cpk.Types.Scope().Lookup("SearchOptions") != nil) {
+	if !c05Projection(c, sx, "O-1", names, R, 1) {
 		return
 	}
-	cst := cpk.Types.Scope().Lookup("SearchOptions").Type().Underlying().(*types.Struct)
-	cfield := map[string]int{}
-	for i := 0; i < cst.NumFields(); i++ {
-		cfield[cst.Field(i).Name()] = i
-	}
-	// (b) serialisation of each field in R
-	for _, f := range names {
-		key := "cache.SearchOptions." + f + "#serialised"
-		i, ok := cfield[f]
-		if !ok {
-			r.Bad("O-1", key, "", fmt.Sprintf("SearchOptions.%s is read by the search (%s) but the cache key options have no such field: requests differing only in %s share a cached entry", f, R[f][0], f))
-			continue
-		}
-		fd := cst.Field(i)
-		tag := reflect.StructTag(cst.Tag(i)).Get("json")
-		switch {
-		case !fd.Exported():
-			r.Bad("O-1", key, c.P.Pos(fd.Pos()), "field is unexported: encoding/json leaves it out of the key")
-		case strings.Split(tag, ",")[0] == "-" && !strings.Contains(tag, ","):
-			r.Bad("O-1", key, c.P.Pos(fd.Pos()), "field is tagged json:\"-\": it is left out of the key")
-		default:
-			r.OK("O-1", key, c.P.Pos(fd.Pos()), "part of the marshalled key")
-		}
-	}
-	// (a) projection sites: functions that build a cache.SearchOptions from a database.SearchOptions
-	nSites := 0
-	for _, fn := range shippedFuncs(c) {
-		f := sx.Of(fn)
-		// a literal of cache.SearchOptions: an Alloc of that type with field stores
-		ssau.ForEachInstr(fn, false, func(in ssa.Instruction) {
-			al, ok := in.(*ssa.Alloc)
-			if !ok || ssau.NamedOf(al.Type()) != cacheOpts {
-				return
-			}
-			stores := map[string]ssa.Value{}
-			for _, ref := range *al.Referrers() {
-				if fa, ok := ref.(*ssa.FieldAddr); ok {
-					for _, r2 := range *fa.Referrers() {
-						if st, ok := r2.(*ssa.Store); ok && st.Addr == ssa.Value(fa) {
-							stores[ssau.FieldName(fa)] = st.Val
-						}
-					}
-				}
-			}
-			if len(stores) == 0 {
-				return
-			}
-			// the database options value this literal projects: the common base of the loaded fields
-			var src ssa.Value
-			for _, v := range stores {
-				if base, ok := optFieldBase(v); ok {
-					src = base
-				}
-			}
-			if src == nil {
-				return
-			}
-			nSites++
-			site := fmt.Sprintf("%s#projection-%d", load.FuncKey(fn), nSites)
-			for _, fname := range names {
-				key := site + ":" + fname
-				v, ok := stores[fname]
-				if !ok {
-					r.Bad("O-1", key, c.P.Pos(al.Pos()), fmt.Sprintf("the cache options built here do not copy %s, which the search reads (%s): two requests that differ only in %s get the same key, and the second is answered with the first one's results", fname, R[fname][0], fname))
-					continue
-				}
-				base, isOpt := optFieldBase(v)
-				good := isOpt && optFieldName(v) == fname && f.E(base) == f.E(src)
-				r.Check(good, "O-1", key, c.P.Pos(al.Pos()), "copied from the same options value", fmt.Sprintf("the cache option %s is not the searched options' %s: %s", fname, fname, f.Plain(v)))
-			}
-		})
-	}
-	r.Floor("O-1", "projection sites", nSites, 1)
 
 	// (b) the struct reaches Marshal -> Sum256 -> returned key
 	gk := c.P.Func("internal/cache", "SearchCache", "generateCacheKey")
@@ -279,6 +210,61 @@ func c05Key(c *Ctx, sx *symx.Ctx) {
 					hashOK = true
 				}
 			}
+			// ... or through a helper of the repository given the bytes, which hashes them
+			ssau.ForEachInstr(gk, false, func(in ssa.Instruction) {
+				call, ok := in.(*ssa.Call)
+				if !ok || hashOK {
+					return
+				}
+				h := call.Common().StaticCallee()
+				if h == nil || h.Blocks == nil || !c.P.IsRepoFunc(h) {
+					return
+				}
+				for i, a := range call.Common().Args {
+					if a != resultValue(mc, 0) || i >= len(h.Params) {
+						continue
+					}
+					for _, hc := range callsTo(h, "crypto/sha256.Sum256") {
+						if hc.Common().Args[0] == ssa.Value(h.Params[i]) {
+							// the digest is what the helper hands back
+							tr := &origin.Tracer{Through: func(c2 *ssa.Call, idx int) []ssa.Value {
+								switch ssau.CallName(c2) {
+								case "fmt.Sprintf", "encoding/hex.EncodeToString":
+									return c2.Common().Args
+								}
+								return nil
+							}}
+							all := true
+							for _, ret := range ssau.ReturnsOf(h) {
+								from := false
+								for _, rt := range tr.Roots(ssau.ResultValue(ret, 0)) {
+									if rt.V == ssa.Value(hc) {
+										from = true
+									}
+									// the digest array held in a local and sliced whole
+									rv := rt.V
+									if sl, isSl := rv.(*ssa.Slice); isSl {
+										rv = sl.X
+									}
+									if al, isAl := rv.(*ssa.Alloc); isAl {
+										for _, ref := range *al.Referrers() {
+											if st, isSt := ref.(*ssa.Store); isSt && st.Addr == ssa.Value(al) && st.Val == ssa.Value(hc) {
+												from = true
+											}
+										}
+									}
+								}
+								if !from {
+									all = false
+								}
+							}
+							if all {
+								hashOK = true
+							}
+						}
+					}
+				}
+			})
 			r.Check(hashOK, "O-1", fk+"#hash-of-marshalled-key", c.P.Pos(mc.Pos()), "sha256.Sum256(json.Marshal(keyData))", "the hash is not computed over the marshalled key data")
 		}
 		r.Check(marshalArgOK, "O-1", fk+"#marshals-query-and-options", c.P.Pos(gk.Pos()), "json.Marshal({normalised query, options})", "the value marshalled into the key does not hold both the normalised query and the whole options struct")
@@ -310,6 +296,94 @@ func c05Key(c *Ctx, sx *symx.Ctx) {
 		r.Check(rewritten == "", "O-1", fk+"#options-unmodified", c.P.Pos(gk.Pos()), "no field of the options is rewritten before they are hashed", "options."+rewritten+" is rewritten inside the key function: requests that differ in that field (and that the engine treats differently) get the same key")
 		_ = okKey
 	}
+}
+
+// c05Projection: every field in names (fields of database.SearchOptions that
+// the search reads, with where) is a serialised field of cache.SearchOptions
+// and is copied from the searched options at every site that builds the cache
+// options. Used for the whole read set by C05 and for the filter options by C04.
+func c05Projection(c *Ctx, sx *symx.Ctx, rule string, names []string, R map[string][]string, floor int) bool {
+	r := c.R
+	// cache.SearchOptions struct
+	cpk := c.P.Pkg("internal/cache")
+	if !r.Anchor(rule, "cache.SearchOptions", cpk != nil && cpk.Types.Scope().Lookup("SearchOptions") != nil) {
+		return false
+	}
+	cst := cpk.Types.Scope().Lookup("SearchOptions").Type().Underlying().(*types.Struct)
+	cfield := map[string]int{}
+	for i := 0; i < cst.NumFields(); i++ {
+		cfield[cst.Field(i).Name()] = i
+	}
+	// (b) serialisation of each field in R
+	for _, f := range names {
+		key := "cache.SearchOptions." + f + "#serialised"
+		i, ok := cfield[f]
+		if !ok {
+			r.Bad(rule, key, "", fmt.Sprintf("SearchOptions.%s is read by the search (%s) but the cache key options have no such field: requests differing only in %s share a cached entry", f, R[f][0], f))
+			continue
+		}
+		fd := cst.Field(i)
+		tag := reflect.StructTag(cst.Tag(i)).Get("json")
+		switch {
+		case !fd.Exported():
+			r.Bad(rule, key, c.P.Pos(fd.Pos()), "field is unexported: encoding/json leaves it out of the key")
+		case strings.Split(tag, ",")[0] == "-" && !strings.Contains(tag, ","):
+			r.Bad(rule, key, c.P.Pos(fd.Pos()), "field is tagged json:\"-\": it is left out of the key")
+		default:
+			r.OK(rule, key, c.P.Pos(fd.Pos()), "part of the marshalled key")
+		}
+	}
+	// (a) projection sites: functions that build a cache.SearchOptions from a database.SearchOptions
+	nSites := 0
+	for _, fn := range shippedFuncs(c) {
+		f := sx.Of(fn)
+		// a literal of cache.SearchOptions: an Alloc of that type with field stores
+		ssau.ForEachInstr(fn, false, func(in ssa.Instruction) {
+			al, ok := in.(*ssa.Alloc)
+			if !ok || ssau.NamedOf(al.Type()) != cacheOpts {
+				return
+			}
+			stores := map[string]ssa.Value{}
+			for _, ref := range *al.Referrers() {
+				if fa, ok := ref.(*ssa.FieldAddr); ok {
+					for _, r2 := range *fa.Referrers() {
+						if st, ok := r2.(*ssa.Store); ok && st.Addr == ssa.Value(fa) {
+							stores[ssau.FieldName(fa)] = st.Val
+						}
+					}
+				}
+			}
+			if len(stores) == 0 {
+				return
+			}
+			// the database options value this literal projects: the common base of the loaded fields
+			var src ssa.Value
+			for _, v := range stores {
+				if base, ok := optFieldBase(v); ok {
+					src = base
+				}
+			}
+			if src == nil {
+				return
+			}
+			nSites++
+			site := fmt.Sprintf("%s#projection-%d", load.FuncKey(fn), nSites)
+			for _, fname := range names {
+				key := site + ":" + fname
+				v, ok := stores[fname]
+				if !ok {
+					r.Bad(rule, key, c.P.Pos(al.Pos()), fmt.Sprintf("the cache options built here do not copy %s, which the search reads (%s): two requests that differ only in %s get the same key, and the second is answered with the first one's results", fname, R[fname][0], fname))
+					continue
+				}
+				base, isOpt := optFieldBase(v)
+				good := isOpt && optFieldName(v) == fname && f.E(base) == f.E(src)
+				r.Check(good, rule, key, c.P.Pos(al.Pos()), "copied from the same options value", fmt.Sprintf("the cache option %s is not the searched options' %s: %s", fname, fname, f.Plain(v)))
+			}
+		})
+	}
+	r.Floor(rule, "projection sites", nSites, floor)
+
+	return true
 }
 
 func derefT(t types.Type) types.Type {
@@ -672,32 +746,8 @@ func c05Alias(c *Ctx) {
 			}
 		}
 		for _, call := range callsTo(put, "(*"+cachePkg+".LRUCache).Put") {
-			v := ssau.Strip(call.Common().Args[2])
-			src := listP
-			switch x := v.(type) {
-			case *ssa.MakeSlice:
-				// copy(mk, results)
-				for _, cp := range callsTo(put, "builtin.copy") {
-					if cp.Common().Args[0] == ssa.Value(x) && cp.Common().Args[1] == src && ssau.Dominates(cp, call) {
-						good = true
-					}
-				}
-			case *ssa.Call:
-				a := x.Common().Args
-				switch n := ssau.CallName(x); {
-				case n == "builtin.append" && len(a) == 2 && a[1] == src:
-					// append(<fresh empty slice>, results...)
-					switch b := ssau.Strip(a[0]).(type) {
-					case *ssa.MakeSlice:
-						if z, ok := ssau.ConstInt(b.Len); ok && z == 0 {
-							good = true
-						}
-					case *ssa.Const:
-						good = b.IsNil()
-					}
-				case strings.HasPrefix(n, "slices.Clone") && len(a) == 1 && a[0] == src:
-					good = true
-				}
+			if c05FreshCopyOf(c, put, ssau.Strip(call.Common().Args[2]), listP, call, 0) {
+				good = true
 			}
 		}
 		r.Check(good, "O-5", "cache.(*SearchCache).Put#stores-a-copy", c.P.Pos(put.Pos()), "the LRU receives a fresh copy of the caller's list (make+copy, append onto a fresh empty slice, or slices.Clone)", "the caller's slice itself is stored in the cache: later writes by the caller change cached answers")
@@ -720,4 +770,58 @@ func c05Alias(c *Ctx) {
 		}
 		r.Check(good, "O-5", "database.convertCacheResults#returns-fresh-slice", c.P.Pos(conv.Pos()), "the hit path returns a slice allocated by the conversion", "the hit path can return memory shared with the cache")
 	}
+}
+
+// c05FreshCopyOf: in fn, v is a new slice holding the elements of src (make
+// and copy completed before `before`, append onto a fresh empty slice,
+// slices.Clone), or the result of a helper of the repository that returns
+// such a copy of the list it is given.
+func c05FreshCopyOf(c *Ctx, fn *ssa.Function, v, src ssa.Value, before ssa.Instruction, d int) bool {
+	if d > 2 {
+		return false
+	}
+	isSrc := func(x ssa.Value) bool { return x == src || (ssau.ParamOf(x) != nil && ssau.ParamOf(x) == ssau.ParamOf(src)) }
+	switch x := v.(type) {
+	case *ssa.MakeSlice:
+		for _, cp := range callsTo(fn, "builtin.copy") {
+			if cp.Common().Args[0] == ssa.Value(x) && isSrc(cp.Common().Args[1]) && (before == nil || ssau.Dominates(cp, before)) {
+				return true
+			}
+		}
+	case *ssa.Call:
+		a := x.Common().Args
+		switch n := ssau.CallName(x); {
+		case n == "builtin.append" && len(a) == 2 && isSrc(a[1]):
+			switch b := ssau.Strip(a[0]).(type) {
+			case *ssa.MakeSlice:
+				if z, ok := ssau.ConstInt(b.Len); ok && z == 0 {
+					return true
+				}
+			case *ssa.Const:
+				return b.IsNil()
+			}
+		case strings.HasPrefix(n, "slices.Clone") && len(a) == 1 && isSrc(a[0]):
+			return true
+		}
+		g := x.Common().StaticCallee()
+		if g == nil || g.Blocks == nil || !c.P.IsRepoFunc(g) || g.Signature.Results().Len() != 1 {
+			return false
+		}
+		for i, arg := range a {
+			if !isSrc(arg) || i >= len(g.Params) {
+				continue
+			}
+			rets := ssau.ReturnsOf(g)
+			all := len(rets) > 0
+			for _, ret := range rets {
+				if !c05FreshCopyOf(c, g, ssau.Strip(ssau.ResultValue(ret, 0)), g.Params[i], ret, d+1) {
+					all = false
+				}
+			}
+			if all {
+				return true
+			}
+		}
+	}
+	return false
 }
